@@ -216,6 +216,8 @@ def verify_terms(spec, obs, vi):
         info.setdefault("masks_known", []).append(not (chunk_ok and masks is None))
         info.setdefault("zero", []).append(zero)
         info.setdefault("has_msm", []).append(call is not None)
+    # chunk sizes as the implementation went through them: members absorbed by each weight transcript
+    info["sizes"] = [len([x for x in per.get(t, []) if x[0] == "app" and x[1] == "proof"]) for t in wtids]
     info["chunks_expected"] = nchunks
     info["started"] = started
     return terms, info
@@ -267,7 +269,8 @@ def coq_eval_codes(name, header, cases, shards=8, timeout=3000, per_shard_min=2)
 CODE_BITS = {1: "Ok/Err class", 2: "recovered masks", 4: "G_i/H_i (static) scalars", 8: "dynamic-point scalars",
              16: "per-proof transcript operations before the last challenge", 32: "weight-transcript operations",
              64: "guard order (the model refuses the batch at the statement/generator consistency checks, the implementation went on to the transcripts)",
-             128: "per-proof transcript operations (incl. response scalars bound for the batch weight)"}
+             128: "per-proof transcript operations (incl. response scalars bound for the batch weight)",
+             256: "chunking of the batch (sizes of the internal chunks vs Model/VerifyTop.chunks_of)"}
 
 
 def explain(code):
